@@ -27,6 +27,7 @@ EXPLANATION = (
     "function on the common/group evaluation path reads `.response`, and `is_response` is read only by the two "
     "misuse guards and the y[level] branch. R15.5 no response => none. R15.6 prop columns and guards. Not decided: "
     "the point-wise meaning of the response columns."
+    " R15.8 built-in helpers win over the caller's names (C11's R11.1 / R11.2)."
 )
 ASSUMPTIONS = [
     "polarity/meaning of np.where(x == reference, 1, 0) is a runtime fact; only the plumbing into it is decided",
